@@ -106,12 +106,13 @@ func (self *Interpreter) rangeLiteral(node ast.AnalyzedRangeLiteralExpression) (
 	if i != nil {
 		return nil, i
 	}
+	startNow := *rangeStart
 	rangeEnd, i := self.expression(node.End)
 	if i != nil {
 		return nil, i
 	}
 
-	return value.NewValueRange(*rangeStart, *rangeEnd, node.EndIsInclusive), nil
+	return value.NewValueRange(startNow, *rangeEnd, node.EndIsInclusive), nil
 }
 
 //
@@ -227,12 +228,14 @@ func (self *Interpreter) infixHelper(lhs ast.AnalyzedExpression, rhs ast.Analyze
 		if i != nil {
 			return nil, nil, i
 		}
+		// the value of the left operand is the one it has now: the right operand may assign the variable
+		lhsNow := *lhs
 		rhs, i := self.expression(rhs)
 		if i != nil {
 			return nil, nil, i
 		}
 
-		res, i := (*lhs).IsEqual(*rhs)
+		res, i := lhsNow.IsEqual(*rhs)
 		if i != nil {
 			return nil, nil, i
 		}
@@ -242,12 +245,14 @@ func (self *Interpreter) infixHelper(lhs ast.AnalyzedExpression, rhs ast.Analyze
 		if i != nil {
 			return nil, nil, i
 		}
+		// the value of the left operand is the one it has now: the right operand may assign the variable
+		lhsNow := *lhs
 		rhs, i := self.expression(rhs)
 		if i != nil {
 			return nil, nil, i
 		}
 
-		res, i := (*lhs).IsEqual(*rhs)
+		res, i := lhsNow.IsEqual(*rhs)
 		if i != nil {
 			return nil, nil, i
 		}
@@ -262,12 +267,13 @@ func (self *Interpreter) infixHelper(lhs ast.AnalyzedExpression, rhs ast.Analyze
 		if i != nil {
 			return nil, nil, i
 		}
+		// taken before the right operand runs (it may assign the variable the left operand names)
+		lhsInt := (*lhsVal).(value.ValueInt)
 		rhsVal, i := self.expression(rhs)
 		if i != nil {
 			return nil, nil, i
 		}
 
-		lhsInt := (*lhsVal).(value.ValueInt)
 		rhsInt := (*rhsVal).(value.ValueInt)
 
 		// TODO: add checked operations + runtime crashes
@@ -326,12 +332,13 @@ func (self *Interpreter) infixHelper(lhs ast.AnalyzedExpression, rhs ast.Analyze
 		if i != nil {
 			return nil, nil, i
 		}
+		// taken before the right operand runs (it may assign the variable the left operand names)
+		lhsFloat := (*lhsVal).(value.ValueFloat)
 		rhsVal, i := self.expression(rhs)
 		if i != nil {
 			return nil, nil, i
 		}
 
-		lhsFloat := (*lhsVal).(value.ValueFloat)
 		rhsFloat := (*rhsVal).(value.ValueFloat)
 
 		// TODO: add checked operations + runtime crashes
@@ -371,6 +378,8 @@ func (self *Interpreter) infixHelper(lhs ast.AnalyzedExpression, rhs ast.Analyze
 			if i != nil {
 				return nil, nil, i
 			}
+			// taken before the right operand runs (it may assign the variable the left operand names)
+			lhsBool = (*lhsTemp).(value.ValueBool).Inner
 			rhsTemp, i := self.expression(rhs)
 			if i != nil {
 				return nil, nil, i
@@ -378,7 +387,6 @@ func (self *Interpreter) infixHelper(lhs ast.AnalyzedExpression, rhs ast.Analyze
 			lhsVal = lhsTemp
 			rhsVal = rhsTemp
 
-			lhsBool = (*lhsVal).(value.ValueBool).Inner
 			rhsBool = (*rhsVal).(value.ValueBool).Inner
 		}
 
@@ -428,6 +436,7 @@ func (self *Interpreter) infixHelper(lhs ast.AnalyzedExpression, rhs ast.Analyze
 		if i != nil {
 			return nil, nil, i
 		}
+		lhsStr := (*lhsTemp).(value.ValueString).Inner
 		rhsTemp, i := self.expression(rhs)
 		if i != nil {
 			return nil, nil, i
@@ -435,7 +444,7 @@ func (self *Interpreter) infixHelper(lhs ast.AnalyzedExpression, rhs ast.Analyze
 
 		switch operator {
 		case pAst.PlusInfixOperator:
-			strRes := (*lhsTemp).(value.ValueString).Inner + (*rhsTemp).(value.ValueString).Inner
+			strRes := lhsStr + (*rhsTemp).(value.ValueString).Inner
 			return value.NewValueString(strRes), lhsTemp, nil
 		default:
 			panic("A new operator kind was introduced without updating this code")
@@ -605,6 +614,7 @@ func (self *Interpreter) matchExpression(node ast.AnalyzedMatchExpression) (*val
 		return nil, i
 	}
 
+	controlNow := *control
 	for _, arm := range node.Arms {
 		for _, lit := range arm.Literals {
 			literal, i := self.expression(lit)
@@ -613,7 +623,7 @@ func (self *Interpreter) matchExpression(node ast.AnalyzedMatchExpression) (*val
 			}
 
 			// check if the literal is equal to the value of the control expr
-			isEqual, i := (*literal).IsEqual(*control)
+			isEqual, i := (*literal).IsEqual(controlNow)
 			if i != nil {
 				return nil, i
 			}
